@@ -55,12 +55,19 @@ InitCfg == [state |-> "Unknown", master |-> "", mterm |-> 0, aterm |-> 0,
 
 InitDev == [up |-> TRUE, vals |-> EmptyFn, boot |-> 0, maxeid |-> 0, failq |-> << >>]
 
-InitW == [txs |-> << >>, cfg |-> InitCfg, conns |-> {}, nconn |-> 0, dev |-> InitDev]
+\* q: the work sets of the three controllers (what their watchers and requeues have made pending).  A freshly started
+\* process finds the configuration record and the target entity replayed: the configuration and mastership controllers
+\* are pending.
+NoQ == [tx |-> {}, cfg |-> FALSE, mast |-> FALSE]
+InitQ == [tx |-> {}, cfg |-> TRUE, mast |-> TRUE]
+InitW == [txs |-> << >>, cfg |-> InitCfg, conns |-> {}, nconn |-> 0, dev |-> InitDev, q |-> InitQ]
+Strip(W) == [W EXCEPT !.q = NoQ]
 
 -----------------------------------------------------------------------------
 (* effects *)
 CfgW(f) == [k |-> "cfg", f |-> f]
 TxW(f) == [k |-> "tx", f |-> f]
+Rq(j) == [k |-> "rq", i |-> j]     \* Result{Requeue: j}: not a persisted effect, reached only if the reconcile returns normally
 DevE(vals, eid, conn, ok, bad) == [k |-> "dev", vals |-> vals, eid |-> eid, conn |-> conn, ok |-> ok, bad |-> bad]
 
 HasTx(W, j) == j \in 1..Len(W.txs)
@@ -96,15 +103,15 @@ CommitChange(W, i) ==
                              ELSE << CfgW([ctarget |-> i]), TxW(rb) >>
                         ELSE << TxW(rb) >>
           [] T.cc = InProgress ->
-               IF C.cchange = i THEN << TxW([cc |-> Complete, cord |-> C.cord]) >>
+               IF C.cchange = i THEN << TxW([cc |-> Complete, cord |-> C.cord]), Rq(i + 1) >>
                ELSE LET cand == T.values @@ C.cvalues
                         valid == ~NoPlugin /\ \A p \in DOMAIN cand : cand[p] # Invalid
                     IN  IF ~valid
-                        THEN << TxW([cc |-> Failed, ca |-> Canceled]), CfgW([cindex |-> i, cchange |-> i]) >>
+                        THEN << TxW([cc |-> Failed, ca |-> Canceled]), CfgW([cindex |-> i, cchange |-> i]), Rq(i + 1) >>
                         ELSE << CfgW([cindex |-> i, cchange |-> i, crev |-> i, cord |-> C.cord + 1, cvalues |-> cand]),
-                                TxW([cc |-> Complete, cord |-> C.cord + 1]) >>
+                                TxW([cc |-> Complete, cord |-> C.cord + 1]), Rq(i + 1) >>
           [] T.cc = Failed ->
-               IF C.cchange < i THEN << CfgW([cindex |-> i, cchange |-> i]) >> ELSE << >>
+               IF C.cchange < i THEN << CfgW([cindex |-> i, cchange |-> i]), Rq(i + 1) >> ELSE << >>
           [] OTHER -> << >>
 
 PrevApplyOpen(W, C) ==
@@ -120,16 +127,16 @@ ApplyChange(W, i) ==
                IF C.aord # T.cord - 1 THEN << >>
                ELSE IF C.atarget = i THEN << TxW([ca |-> InProgress]) >>
                ELSE IF PrevApplyOpen(W, C) THEN << >>
-               ELSE IF C.arev < T.rindex THEN << TxW([ca |-> Aborted]), CfgW(bump) >>
+               ELSE IF C.arev < T.rindex THEN << TxW([ca |-> Aborted]), CfgW(bump), Rq(i + 1) >>
                ELSE << CfgW([atarget |-> i]), TxW([ca |-> InProgress]) >>
           [] T.ca = InProgress ->
-               IF C.aord = T.cord /\ C.arev = i THEN << TxW([ca |-> Complete]) >>
+               IF C.aord = T.cord /\ C.arev = i THEN << TxW([ca |-> Complete]), Rq(i + 1) >>
                ELSE ApplyVals(W, C, T.values,
                               << CfgW([aindex |-> i, aord |-> T.cord, arev |-> i, avalues |-> T.values @@ C.avalues]),
-                                 TxW([ca |-> Complete]) >>,
-                              << TxW([ca |-> Failed]), CfgW([aindex |-> i, aord |-> T.cord]) >>)
+                                 TxW([ca |-> Complete]), Rq(i + 1) >>,
+                              << TxW([ca |-> Failed]), CfgW([aindex |-> i, aord |-> T.cord]), Rq(i + 1) >>)
           [] T.ca \in {Aborted, Failed} ->
-               IF C.aord < T.cord THEN << CfgW(bump) >> ELSE << >>
+               IF C.aord < T.cord THEN << CfgW(bump), Rq(i + 1) >> ELSE << >>
           [] OTHER -> << >>
 
 CommitRollback(W, i) ==
@@ -144,8 +151,8 @@ CommitRollback(W, i) ==
           [] T.rc = InProgress ->
                IF C.crev = i
                THEN << CfgW([cvalues |-> T.rvalues @@ C.cvalues, cindex |-> i, cord |-> C.cord + 1, crev |-> T.rindex]),
-                       TxW([rord |-> C.cord + 1, rc |-> Complete]) >>
-               ELSE << TxW([rord |-> C.cord, rc |-> Complete]) >>
+                       TxW([rord |-> C.cord + 1, rc |-> Complete]), Rq(C.cchange + 1) >>
+               ELSE << TxW([rord |-> C.cord, rc |-> Complete]), Rq(C.cchange + 1) >>
           [] OTHER -> << >>
 
 ApplyRollback(W, i) ==
@@ -162,20 +169,20 @@ ApplyRollback(W, i) ==
     IN  CASE T.ra = Pending ->
                CASE T.ca = Pending ->
                       IF C.aord = T.cord - 1 /\ ~PrevApplyOpen(W, C)
-                      THEN << TxW([ca |-> Aborted]), CfgW(bump) >> ELSE << >>
+                      THEN << TxW([ca |-> Aborted]), CfgW(bump), Rq(i + 1) >> ELSE << >>
                  [] T.ca = InProgress ->
-                      IF C.aord # T.cord THEN << TxW([ca |-> Failed]), CfgW(bump) >> ELSE << TxW([ca |-> Complete]) >>
+                      IF C.aord # T.cord THEN << TxW([ca |-> Failed]), CfgW(bump), Rq(i + 1) >> ELSE << TxW([ca |-> Complete]), Rq(i + 1) >>
                  [] T.ca \in {Aborted, Failed} ->
-                      IF C.aord < T.cord THEN << CfgW(bump) >> ELSE rest
+                      IF C.aord < T.cord THEN << CfgW(bump), Rq(i + 1) >> ELSE rest
                  [] OTHER -> rest
           [] T.ra = InProgress ->
-               IF C.aord = T.rord /\ C.arev = T.rindex THEN << TxW([ra |-> Complete]) >>
+               IF C.aord = T.rord /\ C.arev = T.rindex THEN << TxW([ra |-> Complete]), Rq(i + 1) >>
                \* a change that never reached the target (its apply was aborted) displaced nothing there
-               ELSE IF T.ca = Aborted THEN << CfgW([aindex |-> i, aord |-> T.rord]), TxW([ra |-> Complete]) >>
+               ELSE IF T.ca = Aborted THEN << CfgW([aindex |-> i, aord |-> T.rord]), TxW([ra |-> Complete]), Rq(i + 1) >>
                ELSE ApplyVals(W, C, T.rvalues,
                               << CfgW([aindex |-> i, aord |-> T.rord, arev |-> Min(C.arev, T.rindex), avalues |-> T.rvalues @@ C.avalues]),
-                                 TxW([ra |-> Complete]) >>,
-                              << CfgW([aindex |-> i, aord |-> T.rord]), TxW([ra |-> Failed]) >>)
+                                 TxW([ra |-> Complete]), Rq(i + 1) >>,
+                              << CfgW([aindex |-> i, aord |-> T.rord]), TxW([ra |-> Failed]), Rq(i + 1) >>)
           [] OTHER -> << >>
 
 PlanTx(W, i) ==
@@ -203,6 +210,14 @@ PlanMast(W, pick) ==
         ELSE << CfgW([mterm |-> C.mterm + 1, master |-> pick]) >>
 
 -----------------------------------------------------------------------------
+(* wake-ups: which objects an event of a record makes pending (watchers.go of the three v3 controllers) *)
+\* a configuration event names: the commit / apply targets, the last applied and the last committed transaction, the
+\* revision that can be rolled back next and the next change waiting to be committed
+WakeCfg(q, c2) == [tx |-> q.tx \cup ({c2.ctarget, c2.atarget, c2.aindex, c2.cindex, c2.crev, c2.cchange + 1} \ {0}), cfg |-> TRUE, mast |-> TRUE]
+WakeTx(q, i) == [q EXCEPT !.tx = @ \cup {i}]
+WakeAll(W) == [tx |-> 1..Len(W.txs), cfg |-> TRUE, mast |-> TRUE]   \* a restarted process: every watcher replays every record
+
+-----------------------------------------------------------------------------
 (* the device *)
 Max(a, b) == IF a > b THEN a ELSE b
 
@@ -223,62 +238,82 @@ LatestCommitted(W, i) ==   \* i is the change the committed configuration curren
     HasTx(W, i) /\ W.txs[i].phase = "Change" /\ W.txs[i].cc = Complete
 
 Simple(W, st) ==
-    CASE st.k = "append" -> [W EXCEPT !.txs = Append(W.txs, NewTx(st.ch))]
+    CASE st.k = "append" -> [W EXCEPT !.txs = Append(W.txs, NewTx(st.ch)), !.q = WakeTx(W.q, Len(W.txs) + 1)]
       [] st.k = "rollback" ->
            IF LatestCommitted(W, st.i)
-           THEN [W EXCEPT !.txs[st.i].phase = "Rollback", !.txs[st.i].rc = Pending, !.txs[st.i].ra = Pending]
+           THEN [W EXCEPT !.txs[st.i].phase = "Rollback", !.txs[st.i].rc = Pending, !.txs[st.i].ra = Pending, !.q = WakeTx(W.q, st.i)]
            ELSE W
+      \* connections come and go with their CONTROLS relations: the mastership controller's topology watcher maps those
       [] st.k = "connect" ->
-           IF W.dev.up THEN [W EXCEPT !.nconn = W.nconn + 1, !.conns = W.conns \cup {"c" \o ToString(W.nconn + 1)}]
+           IF W.dev.up THEN [W EXCEPT !.nconn = W.nconn + 1, !.conns = W.conns \cup {"c" \o ToString(W.nconn + 1)}, !.q.mast = TRUE]
            ELSE [W EXCEPT !.nconn = W.nconn + 1]
-      [] st.k = "disconnect" -> [W EXCEPT !.conns = {}]
-      [] st.k = "devstop" -> [W EXCEPT !.conns = {}, !.dev = [up |-> FALSE, vals |-> EmptyFn, boot |-> W.dev.boot + 1, maxeid |-> 0, failq |-> W.dev.failq]]
+      [] st.k = "disconnect" -> [W EXCEPT !.conns = {}, !.q.mast = (W.q.mast \/ W.conns # {})]
+      [] st.k = "devstop" -> [W EXCEPT !.conns = {}, !.q.mast = (W.q.mast \/ W.conns # {}),
+                                       !.dev = [up |-> FALSE, vals |-> EmptyFn, boot |-> W.dev.boot + 1, maxeid |-> 0, failq |-> W.dev.failq]]
       [] st.k = "devstart" -> [W EXCEPT !.dev.up = TRUE]
       [] st.k = "devfail" -> [W EXCEPT !.dev.failq = W.dev.failq \o [n \in 1..st.cnt |-> st.code]]
       [] OTHER -> W
 
 -----------------------------------------------------------------------------
 (* running a reconcile: effects in order, conflicts, death, interleaved steps *)
-RECURSIVE Run(_, _, _, _, _, _), Mids(_, _), Step(_, _, _)
+\* the work-set update that makes the reconciled object pending again
+SelfUpd(st, q) == CASE st.k = "rtx" -> WakeTx(q, st.i)
+                    [] st.k = "rcfg" -> [q EXCEPT !.cfg = TRUE]
+                    [] st.k = "rmast" -> [q EXCEPT !.mast = TRUE]
+                    [] OTHER -> q
+Dequeue(st, q) == CASE st.k = "rtx" -> [q EXCEPT !.tx = @ \ {st.i}]
+                    [] st.k = "rcfg" -> [q EXCEPT !.cfg = FALSE]
+                    [] st.k = "rmast" -> [q EXCEPT !.mast = FALSE]
+                    [] OTHER -> q
 
-\* seenC / seenT: the records as this reconcile believes them to be (as read, then as written by itself);
-\* a write succeeds iff the stored record still is that record (the version check)
-Run(W, seenC, seenT, n0, effs, X) ==
-    IF effs = << >> THEN W
-    ELSE LET e == Head(effs)
-             n == n0 + 1
-         IN  IF X.cut = n THEN W
-             ELSE LET W1 == IF X.at = n THEN Mids(W, X.mid) ELSE W
-                  IN  CASE e.k = "cfg" ->
-                             IF W1.cfg = seenC
-                             THEN LET c2 == e.f @@ W1.cfg IN Run([W1 EXCEPT !.cfg = c2], c2, seenT, n, Tail(effs), X)
-                             ELSE \* conflict.  The store has written the applied value map before the version-checked entry
-                                  LET torn == IF "avalues" \in DOMAIN e.f THEN [W1 EXCEPT !.cfg.avalues = e.f.avalues] ELSE W1
-                                  IN  IF SwallowConflicts THEN Run(torn, seenC, seenT, n, Tail(effs), X) ELSE torn
-                        [] e.k = "tx" ->
-                             IF W1.txs[X.i] = seenT
-                             THEN LET t2 == e.f @@ W1.txs[X.i] IN Run([W1 EXCEPT !.txs[X.i] = t2], seenC, t2, n, Tail(effs), X)
-                             ELSE IF SwallowConflicts THEN Run(W1, seenC, seenT, n, Tail(effs), X) ELSE W1
-                        [] e.k = "dev" ->
-                             LET r == DevSet(W1, e)
-                             IN  IF r.code = 0 THEN Run(r.W, seenC, seenT, n, e.ok, X)
-                                 ELSE IF r.code \in Transient \cup {Denied} THEN r.W
-                                 ELSE Run(r.W, seenC, seenT, n, e.bad, X)
-
-Mids(W, ms) == IF ms = << >> THEN W ELSE Mids(Step(W, Head(ms), "c1"), Tail(ms))
-
-NoX(i) == [i |-> i, cut |-> 0, at |-> 0, mid |-> << >>]
 XOf(st) == [i |-> IF "i" \in DOMAIN st THEN st.i ELSE 0,
             cut |-> IF "cut" \in DOMAIN st THEN st.cut ELSE 0,
             at |-> IF "at" \in DOMAIN st THEN st.at ELSE 0,
-            mid |-> IF "mid" \in DOMAIN st THEN st.mid ELSE << >>]
+            mid |-> IF "mid" \in DOMAIN st THEN st.mid ELSE << >>,
+            k |-> st.k]
+
+RECURSIVE Run(_, _, _, _, _, _), Mids(_, _), Step(_, _, _)
+
+\* seenC / seenT: the records as this reconcile believes them to be (as read, then as written by itself);
+\* a write succeeds iff the stored record still is that record (the version check).
+\* a reconcile that ends with an error is retried by the controller runtime: its object is pending again
+Retry(W, X) == [W EXCEPT !.q = SelfUpd(X, W.q)]
+
+Run(W, seenC, seenT, n0, effs, X) ==
+    IF effs = << >> THEN W
+    ELSE LET e == Head(effs)
+         IN  IF e.k = "rq" THEN [W EXCEPT !.q = WakeTx(W.q, e.i)]
+             ELSE
+             LET n == n0 + 1
+             IN  IF X.cut = n THEN [W EXCEPT !.q = WakeAll(W)]
+                 ELSE LET W1 == IF X.at = n THEN Mids(W, X.mid) ELSE W
+                      IN  CASE e.k = "cfg" ->
+                                 IF W1.cfg = seenC
+                                 THEN LET c2 == e.f @@ W1.cfg IN Run([W1 EXCEPT !.cfg = c2, !.q = WakeCfg(W1.q, c2)], c2, seenT, n, Tail(effs), X)
+                                 ELSE \* conflict.  The store has written the applied value map before the version-checked entry
+                                      LET torn == IF "avalues" \in DOMAIN e.f THEN [W1 EXCEPT !.cfg.avalues = e.f.avalues] ELSE W1
+                                      IN  IF SwallowConflicts THEN Run(torn, seenC, seenT, n, Tail(effs), X) ELSE Retry(torn, X)
+                            [] e.k = "tx" ->
+                                 IF W1.txs[X.i] = seenT
+                                 THEN LET t2 == e.f @@ W1.txs[X.i] IN Run([W1 EXCEPT !.txs[X.i] = t2, !.q = WakeTx(W1.q, X.i)], seenC, t2, n, Tail(effs), X)
+                                 ELSE IF SwallowConflicts THEN Run(W1, seenC, seenT, n, Tail(effs), X) ELSE Retry(W1, X)
+                            [] e.k = "dev" ->
+                                 LET r == DevSet(W1, e)
+                                 IN  IF r.code = 0 THEN Run(r.W, seenC, seenT, n, e.ok, X)
+                                     ELSE IF r.code \in Transient THEN Retry(r.W, X)
+                                     ELSE IF r.code = Denied THEN r.W
+                                     ELSE Run(r.W, seenC, seenT, n, e.bad, X)
+
+Mids(W, ms) == IF ms = << >> THEN W ELSE Mids(Step(W, Head(ms), "c1"), Tail(ms))
 
 \* one step of a behaviour; pick: the relation the mastership election picks (its own random choice)
 Step(W, st, pick) ==
-    CASE st.k = "rtx" -> IF HasTx(W, st.i) THEN Run(W, W.cfg, W.txs[st.i], 0, PlanTx(W, st.i), XOf(st)) ELSE W
-      [] st.k = "rcfg" -> Run(W, W.cfg, Nil, 0, PlanCfg(W), XOf(st))
-      [] st.k = "rmast" -> Run(W, W.cfg, Nil, 0, PlanMast(W, IF pick \in W.conns THEN pick ELSE CHOOSE c \in W.conns : TRUE), XOf(st))
-      [] OTHER -> Simple(W, st)
+    LET W0 == [W EXCEPT !.q = Dequeue(st, W.q)]
+        X == XOf(st)
+    IN  CASE st.k = "rtx" -> IF HasTx(W, st.i) THEN Run(W0, W.cfg, W.txs[st.i], 0, PlanTx(W, st.i), X) ELSE W0
+          [] st.k = "rcfg" -> Run(W0, W.cfg, Nil, 0, PlanCfg(W), X)
+          [] st.k = "rmast" -> Run(W0, W.cfg, Nil, 0, PlanMast(W, IF pick \in W.conns THEN pick ELSE CHOOSE c \in W.conns : TRUE), X)
+          [] OTHER -> Simple(W, st)
 
 \* number of effects a reconcile would attempt when nothing interferes (bounds for cut / at)
 RECURSIVE Len0(_)
@@ -309,9 +344,12 @@ Events(old, new) == EventsFrom(old, new, 1)
 
 -----------------------------------------------------------------------------
 (* fixed point: no reconcile would have an effect *)
-Effective(W, st) == \E pick \in (IF W.conns = {} THEN {"c1"} ELSE W.conns) : Step(W, st, pick) # W
+Effective(W, st) == \E pick \in (IF W.conns = {} THEN {"c1"} ELSE W.conns) : Strip(Step(W, st, pick)) # Strip(W)
 
 StableW(W) == /\ ~Effective(W, [k |-> "rmast"])
               /\ ~Effective(W, [k |-> "rcfg"])
               /\ \A i \in 1..Len(W.txs) : ~Effective(W, [k |-> "rtx", i |-> i])
+
+\* nothing is pending in the controllers' work sets (ids beyond the log find nothing)
+QEmpty(W) == (W.q.tx \cap (1..Len(W.txs))) = {} /\ ~W.q.cfg /\ ~W.q.mast
 =============================================================================
